@@ -243,9 +243,13 @@ def replay(case, M):
         except Exception as exc:
             return True, "parse(%r) raised %s: %s" % (txt, type(exc).__name__, exc)
         if k == "decimal":
-            s = str(d)
-            bad = not (DP.parse(s) == d) or str(DP.parse(s)) != s
-            return bad, "parse(%r) = %s; str -> %r" % (txt, d, s)
+            try:
+                s = str(d)
+                back = DP.parse(s)
+            except Exception as exc:
+                return True, "parse(%r) = %r; its text form does not parse back: %s: %s" % (txt, d, type(exc).__name__, exc)
+            bad = not (back == d) or str(back) != s
+            return bad, "parse(%r) = %s; str -> %r -> %s" % (txt, d, s, back)
         import re
         neg = txt.startswith("-")
         body = txt.lstrip("-")[1:]
